@@ -263,6 +263,17 @@ def universes(tier):
                     if any(k == "struct" for k in ks):
                         t4 = TypeDef(nm(), "enum", variants=[dict(v) for v in vs], tagging=tagging, attrs=["deny_unknown_fields"])
                         add(t4, desc="enum:%s[%s]{deny}" % (tagging, ",".join(ks)))
+    # member-less struct variants (`Resume {}`): schemars writes an object schema with no properties (closed under deny_unknown_fields)
+    for tagging in TAGGINGS:
+        for deny in (False, True):
+            vs = [{"name": "Resume", "kind": "struct", "fields": []}, {"name": "GoTo", "kind": "struct", "fields": [{"name": "line", "ty": "i32"}]}]
+            if tagging != "untagged":
+                vs.append({"name": "Halt", "kind": "unit"})
+            else:
+                vs = vs[::-1]   # untagged: the variant with a member first (an empty open struct variant would swallow every object)
+            add(TypeDef(nm(), "enum", variants=vs, tagging=tagging, attrs=["deny_unknown_fields"] if deny else []), desc="enum:%s[empty struct variant]%s" % (tagging, "{deny}" if deny else ""))
+    for deny in (False, True):
+        add(TypeDef(nm(), "struct", [], attrs=["deny_unknown_fields"] if deny else []), desc="struct0%s" % ("{deny}" if deny else ""))
     # custom default functions (#[serde(default = "f")]): field type x {zero-like, non-zero} value; schemars writes f()'s value as `default`
     cdf = [("i32", "0i32", "8i32"), ("String", "String::new()", '"d".to_string()'), ("bool", "false", "true"),
            (("opt", "i32"), "Some(0i32)", "Some(8i32)"), (("opt", "String"), "Some(String::new())", 'Some("x".to_string())'),
